@@ -216,3 +216,20 @@ Proof.
   rewrite (proj1 (Hs "b"%char)), (proj2 (Hs "b"%char)), (proj1 (Hs "x"%char)), (proj2 (Hs "x"%char)).
   reflexivity.
 Qed.
+
+(* decimal / scientific / leading-dot literals denote the obvious rational, correctly rounded:
+   if the token, with `_` erased, is  ip[.fp][e|E[+|-]ed]  (or .fp[...]) and str::parse::<f64> is
+   correctly rounded on that text, the literal is RNE of  (ip fp as an integer) * 10^(exp - |fp|) *)
+Theorem decimal_literal_value : forall sp c r ip fp ex,
+  is_digit c = true \/ c = "."%char ->
+  (c = "0"%char -> match r with String c2 _ => c2 <> "b"%char /\ c2 <> "x"%char | EmptyString => True end) ->
+  remove_char "_" (String c r) = dec_text ip fp ex ->
+  all_digits ip = true -> all_digits fp = true -> (ip <> "" \/ fp <> "") -> exp_ok ex ->
+  sp (dec_text ip fp ex) = ref_str_parse (dec_text ip fp ex) ->
+  literal_value sp (String c r)
+  = Some (rn_decimal false (digits_val (ip ++ fp) 0) (exp_val ex - slen fp)).
+Proof.
+  intros sp c r ip fp ex Hc H0 Hcl Hi Hf Hne Hex Hsp.
+  rewrite (decimal_literal_erasure sp c r Hc H0), Hcl, Hsp.
+  unfold ref_str_parse. now rewrite (rust_float_syntax_dec_text ip fp ex Hi Hf Hne Hex).
+Qed.
